@@ -503,3 +503,21 @@ def sibling_breaks_family():
                  E_('M'), x('N', 'O', False), E_('P'))
         out.append((E_('A'), ('loop', body3)) + tail)
     return out
+
+
+def wide_fork_family(widths=(4, 5, 6)):
+    """beyond F (2-3 branches): forks with 4-6 branches, plain and with one
+    two-event branch, at top level and inside a loop"""
+    E_ = lambda n: ('ev', n)  # noqa: E731
+    out = []
+    names = "BCDEFGHIJ"
+    for w in widths:
+        for op in ('and', 'or', 'xor'):
+            br = tuple((E_(names[i]),) for i in range(w))
+            out.append((E_('A'), (op, br), E_('Z')))
+            br2 = ((E_('B'), E_('Y')),) + br[1:]
+            out.append((E_('A'), (op, br2), E_('Z')))
+            if w <= 4 or op == 'xor':
+                out.append((E_('A'), ('loop', (E_('S'), (op, br), E_('T'))),
+                            E_('Z')))
+    return out
